@@ -459,9 +459,12 @@ def simple_boundary(g, lo, hi, kinds=("box", "box", "cyl", "sphere", "prism4")):
 
 
 class Placed:
-    """An object placed in a unit: obj (in the unit's frame), a ball (c, r) containing it."""
-    def __init__(self, obj, c, r):
+    """An object placed in a unit: obj (in the unit's frame, stored once in the unit's `objs` and
+    shared by reference {"k":"ref","i":index}), a ball (c, r) containing it."""
+    def __init__(self, u, obj, c, r):
+        u["objs"].append(obj)
         self.obj, self.c, self.r = obj, c, r
+        self.ref = {"k": "ref", "i": len(u["objs"])}
 
     def meets(self, other):
         return math.dist(self.c, other.c) < self.r + other.r
@@ -479,18 +482,18 @@ def fill_unit(g, u, claimed, nmat, depth, spread, global_unit, pyth_ok=True):
         c = [g.ri(-spread, spread) for _ in range(3)]
         t = g.tf(0, pyth_ok and not has_pyth(s))
         t["t"] = c
-        p = Placed(place(s, t), c, rb(s))
+        p = Placed(u, place(s, t), c, rb(s))
         # the global unit's exterior is a volume like any other: keep materials inside the boundary
-        ins = [b] if global_unit and norm2(c) + p.r >= inner_extent(b) else []
-        outs = [q.obj for q in claimed if q.meets(p)] if priority else [q.obj for q in claimed if q.meets(p) and q.r < 0]
-        u["materials"].append({"label": "%s.m%d" % (u["name"], j), "obj": masked(g, p.obj, ins, outs)})
+        ins = [{"k": "ref", "i": 1}] if global_unit and norm2(c) + p.r >= inner_extent(b) else []
+        outs = [q.ref for q in claimed if q.meets(p)] if priority else []
+        u["materials"].append({"label": "%s.m%d" % (u["name"], j), "obj": masked(g, p.ref, ins, outs)})
         claimed.append(p)
     if u["bz"] == "exterior" or rng.random() < 0.5:
         u["bg"] = u["name"] + ".bg"
     else:   # explicit style: the rest of the boundary is a material
         g.count("op:rdv")
         u["materials"].append({"label": u["name"] + ".rest",
-                               "obj": {"k": "rdv", "c": [["in", b]] + [["out", q.obj] for q in claimed]}})
+                               "obj": {"k": "rdv", "c": [["in", {"k": "ref", "i": 1}]] + [["out", q.ref] for q in claimed]}})
 
 
 def daughter_unit(g, name, depth, units, nested, pyth_ok):
@@ -514,7 +517,7 @@ def daughter_unit(g, name, depth, units, nested, pyth_ok):
     g.count("boundary:" + (b["k"] if b["k"] != "solid" else "hollowcyl"))
     idx = len(units)
     u = {"name": name, "boundary": b, "bz": rng.choice(["exterior", "media"]), "bg": "",
-         "daughters": [], "materials": []}
+         "objs": [b], "daughters": [], "materials": []}
     units.append(u)
     claimed = []
     if nested:
@@ -522,13 +525,13 @@ def daughter_unit(g, name, depth, units, nested, pyth_ok):
         nb = simple_boundary(g, 1, 2, ("box", "cyl", "sphere"))
         g.count("boundary:" + nb["k"])
         nu = {"name": name + "n", "boundary": nb, "bz": rng.choice(["exterior", "media"]), "bg": "",
-              "daughters": [], "materials": []}
+              "objs": [nb], "daughters": [], "materials": []}
         units.append(nu)
         fill_unit(g, nu, [], g.ri(1, 2), 1, 1, False, pyth_ok)
         t = g.tf(0, False, force_rot=rng.random() < 0.6)
         t["t"] = [g.ri(-1, 1) for _ in range(3)]
         u["daughters"].append({"unit": sub, "tf": t})
-        claimed.append(Placed(place(nb, t), t["t"], rb(nb)))
+        claimed.append(Placed(u, place(nb, t), t["t"], rb(nb)))
     fill_unit(g, u, claimed, g.ri(1, 3), depth, 3, False, pyth_ok)
     return idx
 
@@ -536,9 +539,11 @@ def daughter_unit(g, name, depth, units, nested, pyth_ok):
 def random_scene(seed, sid, grid_n=9, depth=3):
     g = Gen(seed)
     rng = g.rng
-    units = [None]
+    u0 = {"name": "u0", "boundary": None, "bz": rng.choice(["exterior", "media"]), "bg": "",
+          "objs": [None], "daughters": [], "materials": []}
+    units = [u0]
     claimed = []
-    daughters = []
+    daughters = u0["daughters"]
     r = rng.random()
     ndaughter = 1 if r < 0.45 else 2 if r < 0.6 else 0
     for di in range(ndaughter):
@@ -554,14 +559,13 @@ def random_scene(seed, sid, grid_n=9, depth=3):
             break
         t["t"] = c
         daughters.append({"unit": idx, "tf": t})
-        claimed.append(Placed(place(units[idx]["boundary"], t), c, rad))
+        claimed.append(Placed(u0, place(units[idx]["boundary"], t), c, rad))
     need = max([norm2(q.c) + q.r + 1 for q in claimed] + [0])
     size = max(g.ri(11, 15), need)
     b = simple_boundary(g, size, size + 2)
     g.count("boundary:" + b["k"])
-    u0 = {"name": "u0", "boundary": b, "bz": rng.choice(["exterior", "media"]), "bg": "",
-          "daughters": daughters, "materials": []}
-    units[0] = u0
+    u0["boundary"] = b
+    u0["objs"][0] = b
     fill_unit(g, u0, claimed, g.ri(1, 6) if daughters else g.ri(2, 6), depth, size - 4, True)
     return finish_scene(g, sid, seed, "random", units, grid_n)
 
@@ -574,7 +578,7 @@ def finish_scene(g, sid, seed, family, units, grid_n, margin=2):
     assert all(max(abs(x), abs(x + step * (grid_n - 1))) + 20 < scale for x in lo), (lo, step)
     return {"id": sid, "seed": seed, "family": family,
             "tolrel": 8, "length": 1, "margin": margin, "tolinv": 10 ** 8 // (margin * scale),
-            "grid": {"lo": lo, "step": step, "n": grid_n},
+            "grid": {"lo": lo, "step": step, "n": grid_n, "off": [int(g.rng.random() < 0.85) for _ in range(3)]},
             "units": units, "kinds": g.kinds}
 
 
@@ -625,7 +629,8 @@ def adjacent_scene(seed, sid, grid_n=9):
             z += 2 * hh
     else:  # a daughter box flush between two material boxes; its materials touch its boundary
         h = [g.ri(3, 5), g.ri(3, 5), g.ri(3, 5)]
-        du = {"name": "d0", "boundary": {"k": "box", "h": h}, "bz": "exterior", "bg": "d0.bg", "daughters": [],
+        du = {"name": "d0", "boundary": {"k": "box", "h": h}, "bz": "exterior", "bg": "d0.bg",
+              "objs": [{"k": "box", "h": h}], "daughters": [],
               "materials": [
                   # a lid z in (h2-2, h2) and a cylinder z in (-h2, h2-2)
                   {"label": "d0.m0", "obj": place({"k": "box", "h": [h[0], h[1], 1]}, tr([0, 0, h[2] - 1]))},
@@ -645,7 +650,8 @@ def adjacent_scene(seed, sid, grid_n=9):
     if daughters:
         size = max(size, rb(place(units[1]["boundary"], daughters[0]["tf"])) + 2)
     b = {"k": "box", "h": [size, size, size]}
-    units[0] = {"name": "u0", "boundary": b, "bz": "exterior", "bg": "u0.bg", "daughters": daughters, "materials": mats}
+    units[0] = {"name": "u0", "boundary": b, "bz": "exterior", "bg": "u0.bg", "objs": [b], "daughters": daughters,
+                "materials": mats}
     return finish_scene(g, sid, seed, "adjacent:" + mode, units, grid_n)
 
 
@@ -692,6 +698,8 @@ def perturb(scene, seed):
             walk(o["b"])
 
     for u in sc["units"]:
+        for o in u["objs"][1:]:
+            walk(o)
         for m in u["materials"]:
             walk(m["obj"])
     sc["perturbed"] = n[0]
